@@ -301,6 +301,33 @@ __xml_namespace__ = "https://example.com/aasv/0/1"
 '''
 
 
+_BSL = "\\"  # a single backslash
+
+#: Texts for the string literals (no NUL and no lone surrogate: the front end / the Go generator refuse them).
+NASTY_LITERALS: List[str] = [
+    'say "hi" */ /* ' + _BSL,
+    "it's `x` ${y} " + _BSL + "u12 " + _BSL + "users",
+    "L1\nL2\rL3\u2028L4\u2029L5\x85L6\x0bL7\x0cL8\x1cL9\x1dL10\x1eL11",
+    '"""',
+    "'''",
+    _BSL + '"',
+    _BSL + "'",
+    "tab\t\x01\x7f\ufffe\x1b[0m",
+    "%s {0} {{ %d $x #{y}",
+    "?>]]><!-- <a> &amp;",
+    _BSL + "N{DASH} " + _BSL + "x41 " + _BSL + "101",
+    "a" + _BSL + "\nb",
+    "*/",
+    "// not a comment",
+    '""""',
+    "ends in a backslash" + _BSL,
+    'ends in a quote"',
+    "ends in an apostrophe'",
+    "\u00e9 \U0001f600 astral",
+    "??/ trigraph ??)",
+]
+
+
 def _shape_models() -> List[Tuple[str, str]]:
     """Small complete meta-models (seed independent) whose *structure* selects the branches of the code emitters.
 
@@ -389,6 +416,18 @@ def _shape_models() -> List[Tuple[str, str]]:
             + 'A_text: str = constant_str(value="say \\"hi\\" */ \\\\", description="Hold a text.")\n',
         )
     )
+    # Texts which reach the string literals of the targets: invariant messages, string constants, items of a constant set
+    # (emitted by string_literal of every target and then indented together with the code around them: a line boundary of
+    # ``str.splitlines`` inside a literal was once taken for the end of a line of the code).
+    lines = [
+        "@invariant(lambda self: len(self.text) > 0, %s)" % lit(text) for text in NASTY_LITERALS
+    ]
+    lines += ["class Something(DBC):", '    """Represent something."""', "", "    text: str", '    """Hold text."""', ""]
+    lines += ["    def __init__(self, text: str) -> None:", "        self.text = text", "", ""]
+    for k, text in enumerate(NASTY_LITERALS):
+        lines += ["Text_%d: str = constant_str(value=%s, description=%s)" % (k, lit(text), lit("Hold the text %d." % k)), ""]
+    lines += ["All_texts: Set[str] = constant_set(values=[%s])" % ", ".join(lit(text) for text in NASTY_LITERALS), ""]
+    r.append(("nasty-literals", _MODEL_HEADER + "\n".join(lines)))
     return r
 
 
